@@ -223,6 +223,82 @@ theorem realize_in_subgraphs_prefix_refuted :
   revert this
   decide
 
+/-! ### top-down construction (containers attached first, filled afterwards) -/
+
+/-- Module trees as `__init__` methods usually build them: start from a root built by `Built`, then any number of
+statements acting on an **already attached** descendant reached by child keys (`self.blocks[0].layers…`):
+`d.attr = Parameter(name=None | attr)` on a non-list, `d.attr = child` on a plain Module (child unnamed, or a plain
+Module explicitly named `attr`), `d.append(child)` on a ModuleList (any unnamed child built by `Built`) or on a
+Sequential (an unnamed plain Module).  `extend` is repeated `append`.  The statement is a no-op when the path does not
+exist. -/
+inductive BuiltTop : Mod → Prop
+  | base {m : Mod} : Built m → m.kind = .module → BuiltTop m
+  | paramAt {r : Mod} (path : List String) (attr : String) (pname : Option String) (pid : Nat) :
+      BuiltTop r → (∀ t, nodeAt path r = some t → t.kind ≠ .list) → (pname = none ∨ pname = some attr) →
+      BuiltTop (modifyAt path (fun d => setParam d attr pname pid) r)
+  | childAt {r c : Mod} (path : List String) (attr : String) :
+      BuiltTop r → (∀ t, nodeAt path r = some t → t.kind = .module) → Built c → attr ≠ "" →
+      (c.name = none ∨ (c.kind = .module ∧ c.name = some attr)) →
+      BuiltTop (modifyAt path (fun d => setChild d attr c) r)
+  | appendAt {r c : Mod} (path : List String) :
+      BuiltTop r → (∀ t, nodeAt path r = some t → t.kind = .list ∨ (t.kind = .seq ∧ c.kind = .module)) →
+      Built c → c.name = none → BuiltTop (modifyAt path (fun d => append d c) r)
+
+/-- Every tree built top-down is consistently named: each stored `_name` below the root is what the scope stack of
+`Module.__call__` needs (induction over the construction; `modifyAt_named` carries the invariant down the path, each
+mutation keeps it at the target: `_register_child` of a named ModuleList renames the appended object — and,
+recursively, everything below it — to `name.key`). -/
+theorem builtTop_rootNamed {r : Mod} (h : BuiltTop r) : RootNamed r := by
+  induction h with
+  | base hb hk => exact GoodT.rootNamed_module _ hk (built_good hb)
+  | paramAt path attr pname pid _ ht hp ih =>
+    exact modifyAt_rootNamed _ (fun t => t.kind ≠ .list)
+      (fun e m hT hN => Named.setParam e m attr pname pid hT hp hN)
+      (fun m _ hR => RootNamed.setParam m attr pname pid hp hR) path _ ht ih
+  | childAt path attr _ ht hc ha hcn ih =>
+    exact modifyAt_rootNamed _ (fun t => t.kind = .module)
+      (fun e m hT hN => Named.setChild e m _ attr hT ha hcn (built_good hc) hN)
+      (fun m hT hR => RootNamed.setChild m _ attr hT ha hcn (built_good hc) hR) path _ ht ih
+  | appendAt path _ ht hc hcn ih =>
+    exact modifyAt_rootNamed _ (fun t => t.kind = .list ∨ (t.kind = .seq ∧ _ = Kind.module))
+      (fun e m hT hN => Named.append e m _ hT (built_good hc) hcn hN)
+      (fun m hT hR => RootNamed.append m _ hT (built_good hc) hcn hR) path _ ht ih
+
+/-- **The property for top-down built trees** (and modules called inside nested subgraph bodies): initializer
+names, in realisation order, = `root.name + "." + state_dict key`, every parameter once.  Remaining hypotheses, both
+forced: explicit names agree with keys (inside `BuiltTop`/`Built`; D20b) and distinct parameter objects. -/
+theorem initializer_names_eq_state_dict_topdown_partial (ctl : List (List String)) (root : Mod)
+    (hb : BuiltTop root) (hd : (pids root).Nodup) :
+    realizeB SubPolicy.code ctl root = (stateDict "" root).map (fun x => (rootKey root x.1, x.2)) := by
+  rw [realize_in_subgraphs_eq]
+  exact realize_eq root (builtTop_rootNamed hb) hd
+
+/-- `model{stem: Lin}`, then `model.stages = ModuleList()`, `model.stages.append(ModuleList())`,
+`model.stages[0].append(Lin)`, `model.stages[0].append(Lin)`, `model.stages.append(Sequential())`,
+`model.stages[1].append(Lin)`: containers first, contents later, three levels. -/
+def topDownNet : Mod :=
+  modifyAt ["stages", "1"] (fun d => append d (lin none 3))
+    (modifyAt ["stages"] (fun d => append d (.mk .seq none [] .nil))
+      (modifyAt ["stages", "0"] (fun d => append d (lin none 2))
+        (modifyAt ["stages", "0"] (fun d => append d (lin none 1))
+          (modifyAt ["stages"] (fun d => append d (.mk .list none [] .nil))
+            (modifyAt [] (fun d => setChild d "stages" (.mk .list none [] .nil))
+              (setChild (mkModule (some "model")) "stem" (lin none 0)))))))
+
+example : realize topDownNet =
+    [("model.stem.weight", 0), ("model.stages.0.0.weight", 1), ("model.stages.0.1.weight", 2),
+     ("model.stages.1.0.weight", 3)] := by decide
+example : (stateDict "" topDownNet).map (·.1) =
+    ["stem.weight", "stages.0.0.weight", "stages.0.1.weight", "stages.1.0.weight"] := by decide
+
+example : BuiltTop topDownNet := by
+  refine BuiltTop.appendAt _ (BuiltTop.appendAt _ (BuiltTop.appendAt _ (BuiltTop.appendAt _ (BuiltTop.appendAt _
+    (BuiltTop.childAt [] "stages" (BuiltTop.base
+      (Built.child "stem" (Built.module _) rfl (lin_built _ _) (by decide) (Or.inl rfl)) rfl)
+      ?_ Built.emptyList (by decide) (Or.inl rfl)) ?_ Built.emptyList rfl) ?_ (lin_built _ _) rfl) ?_
+        (lin_built _ _) rfl) ?_ Built.emptySeq rfl) ?_ (lin_built _ _) rfl
+  all_goals (apply of_all; decide)
+
 /-! ## Part A — names generated by `GraphBuilder` -/
 
 /-- **Names are unique** (after commits e9794aa and e7b46e0 — no hypothesis on the trace any more).  In
@@ -370,6 +446,7 @@ node is the operator named by (domain, name, overload)), and every argument list
 handle exactly the value the trace's own replay gives, where the replay of `call_inline f` is *what calling `f`
 means* (`callMeaning`: the body under the passed attributes and declared defaults).  So, at the level of whole
 traces: inlining = calling, constants shared through the cache keep their values, and nothing else is disturbed.
+Operands of an inlining may be values, `None` or Python literals (promoted through the constant cache, 06b8334).
 Hypothesis: function bodies are SSA (each body node's output names are distinct).
 `_partial`: no `subgraph` items (graph-valued attributes are not interpreted). -/
 theorem build_computes_trace_partial {α : Type} (S : OpSem α) (fns : List Fn) (args : List α) (tr : List Item)
@@ -529,15 +606,16 @@ def semTrace : List Item :=
   [.input "x", .input "y", .op "Add" [.ref 0, .lit (.num "3" 3000 "i64")] (.auto 1) none [] [],
    .push "blk", .op "Mul" [.ref 2, .ref 1] (.named ["p"]) none [] [], .pop,
    .op "Add" [.lit (.num "3" 3000 "i64"), .ref 3] (.auto 1) none [] [], .call 0 [.ref 4, .ref 0] none [],
-   .inline 0 [.ref 5, .ref 1] none "pre" [], .output 8 (some "out")]
+   .inline 0 [.ref 5, .ref 1] none "pre" [], .inline 0 [.ref 5, .lit (.num "3" 3000 "i64")] none "" [],
+   .output 8 (some "out")]
 
 example : ∀ it ∈ semTrace, simItem it = true := by decide
 example : (replay intSem [fAddMul] [5, 7] semTrace).henv =
-    [some 5, some 7, some 8, some 56, some 59, some 64, some 295, some 71, some 448] := by decide
+    [some 5, some 7, some 8, some 56, some 59, some 64, some 295, some 71, some 448, some 67, some 192] := by decide
 example : ∀ f ∈ [fAddMul], ∀ n ∈ f.nodes, n.outs.Nodup := by decide
 example : (build [fAddMul] semTrace).handles.map
       (fun o => o.bind (evalGraph intSem (build [fAddMul] semTrace) [5, 7]))
-    = [some 5, some 7, some 8, some 56, some 59, some 64, some 295, some 71, some 448] := by decide
+    = [some 5, some 7, some 8, some 56, some 59, some 64, some 295, some 71, some 448, some 67, some 192] := by decide
 
 /-- `inline_eq_call_partial` instance: inlining `addmul(x, y)` into a graph with inputs 0 ↦ 5, 1 ↦ 7. -/
 def twoInputs : St := build [] [.input "x", .input "y"]
